@@ -1,6 +1,6 @@
 (* Property C02 — unresolvable calls are reported accurately and never dispatched silently.
    Property theorems only. *)
-From Y2 Require Import Model.Registry Model.Compile Spec.Dispatch Proofs.Interfaces Proofs.SpecProofs Proofs.CorollaryProofs.
+From Y2 Require Import Model.Registry Model.Compile Model.Errors Gen.GenCoreConsts Spec.Dispatch Proofs.Interfaces Proofs.SpecProofs Proofs.CorollaryProofs Proofs.ErrorsProofs.
 
 Theorem C02_no_definition_iff : forall R defs args,
   spec_dispatch R defs args = NoDefinition <->
@@ -35,3 +35,35 @@ Theorem C02_error_words : forall R stale C mi m args,
     (forall i, resolve C mi (actuals_of C (m_shape m) cs) = Ok (WFn mi i) -> spec_dispatch R (meth_defs R m) args = Run i).
 Proof. exact error_words. Qed.
 Print Assumptions C02_error_words.
+
+(* The record the error handler receives (model of not_implemented_handler / ambiguous_handler; max_types and the status
+   codes are translated from policies/core.hpp on every run).  ids are the dynamic type ids of the virtual arguments in
+   order; acts_of_ids places them among the non-virtual arguments as the method's shape dictates (non-virtual parameters
+   before, between and after).  For every well-formed registry and legal call: if a definition dominates it runs;
+   otherwise NO definition runs, the handler gets status no_definition / ambiguous accordingly, arity = the number of
+   virtual parameters and types = exactly those ids, in order (truncated at max_types); a throwing handler's exception
+   reaches the caller, a returning handler is followed by abort. *)
+Theorem C02_error_record : forall R stale C mi m args h ids,
+  wf_registry R -> compile_with stale R = Ok C -> nth_error (r_methods R) mi = Some m -> legal R m args ->
+  length ids = length (m_vp m) ->
+  exists cs, map (key (o_lat C)) cs = args /\
+    let r := resolve C mi (actuals_of C (m_shape m) cs) in
+    let acts := acts_of_ids (m_shape m) ids in
+    let o := finish_call h acts r in
+    match spec_dispatch R (meth_defs R m) args with
+    | Run i => o = Ran mi i
+    | NoDefinition =>
+        (exists e, (o = Exception e /\ h = Throws \/ o = Abort e /\ h = Returns) /\
+                   re_status e = status_no_definition /\ re_arity e = length (m_vp m) /\ re_types e = firstn max_types ids)
+    | Ambiguous =>
+        (exists e, (o = Exception e /\ h = Throws \/ o = Abort e /\ h = Returns) /\
+                   re_status e = status_ambiguous /\ re_arity e = length (m_vp m) /\ re_types e = firstn max_types ids)
+    end.
+Proof. exact error_record. Qed.
+Print Assumptions C02_error_record.
+
+(* the two statuses differ, the record can hold the ids of every method the harness exercises, and the handlers copy
+   min(arity, max_types) ids of the virtual arguments (obligations over the translated constants) *)
+Theorem C02_constants : status_no_definition <> status_ambiguous /\ 4 <= max_types /\ handlers_copy_min_arity_max_types = true.
+Proof. repeat split; try discriminate. vm_compute. repeat constructor. Qed.
+Print Assumptions C02_constants.
